@@ -576,7 +576,7 @@ pub fn replay_fault(r: &Replay, path: &str) -> i32 {
         }
         Ok(info) => println!("fault {kind:?} #{idx} in {}: fired={} lost={} leaked={}", op.encode(), info.fired, info.lost, info.leaked),
     }
-    s.mon.focus = "";
+    s.mon.focus = "C07";
     s.mon.conserve = true;
     for op in &r.ops[at..] {
         if !s.go(op.clone()) {
